@@ -410,7 +410,7 @@ func c20RunPointsBinary(r *verifReport) {
 	}
 	r.Extra["point_granularity_pass"] = summary
 	r.Extra["points_at_which_package_state_was_compared"] = points
-	r.Extra["one_preemption_schedules_executed"] = execs
+	r.Extra["preemption_schedules_executed"] = execs
 	r.Traces += execs
 	r.Transitions += points
 }
